@@ -282,7 +282,7 @@ package bt
 //@ func bt.(*nodeOutputJSON).toOutput
 //@   ensures[C16.amount_decoded] (=> (= err nil) (forall ((s Int)) (=> (spec.coin_close (old (. o Value)) s) (= (. result Satoshis) s))))
 //@ func bt.(*nodeUTXOWrapper).UnmarshalJSON
-//@   lemma (forall ((s Int)) (=> (spec.coin_close (. uj Amount) s) (= (. (. n UTXO) Satoshis) s)))
+//@   lemma (=> (= err nil) (forall ((s Int)) (=> (spec.coin_close (. uj Amount) s) (= (. (. n UTXO) Satoshis) s))))
 //@ func bt.(*Output).LockingScriptHexString
 //@   requires (not (nil? (. o LockingScript)))
 //@ func bt.(*UTXO).LockingScriptHexString
